@@ -17,7 +17,7 @@ func init() {
 		LevelText:   "Structural clauses decided for all paths: every acknowledgement send is either a negative ack built with a constant error code, or gated by the matching policy (LEADER directly after a successful append, ALL only on entries taken from the commit queue up to the minimum replicated offset and only when the in-sync set is at least the minimum size); no positive ack site exists for NONE; the ack's offset/correlation id/inbox are those of the message appended at that index; rejected messages never reach the batch. The rule under concurrent in-sync-set change is a schedule question and is not decided.",
 		LevelNote:   "Trusted: go/ssa; the commit queue's TakeUntil semantics (Workiva queue); 'read under p.mu' is taken as 'the in-sync set at that moment'.",
 		DesignRef:   "DESIGN.md §4 C04",
-		Explanation: "R04.5 also: a replica's offset counts, and the replica is caught up, only up to the leader's own log end (F99). R04.7 a term of leadership starts with an empty commit queue; R04.8 a publish addressed to a stream is completed only by an ack that names the stream (F80). R04.1 ack sites classified and gated, R04.2 commit rule in commitLoop and every offset progress signalling it, R04.3 ack field identity, R04.4 rejected ⇒ not stored, R04.5 replica progress sources, R04.6 each batch element admitted / nacked by the size test of its own message, R16.8 (shared) min-ISR setting plumbing. R15.8 (shared) clustering.min.insync.replicas / replication.max.bytes reach their Config fields. NOT decided: the rule while the ISR changes concurrently; delivery of acks.",
+		Explanation: "R02.1 (shared) the loops of a term are joined before the hand-over; R04.5 also: every in-sync entry is reset at the start of a term. R04.5 also: a replica's offset counts, and the replica is caught up, only up to the leader's own log end (F99). R04.7 a term of leadership starts with an empty commit queue; R04.8 a publish addressed to a stream is completed only by an ack that names the stream (F80). R04.1 ack sites classified and gated, R04.2 commit rule in commitLoop and every offset progress signalling it, R04.3 ack field identity, R04.4 rejected ⇒ not stored, R04.5 replica progress sources, R04.6 each batch element admitted / nacked by the size test of its own message, R16.8 (shared) min-ISR setting plumbing. R15.8 (shared) clustering.min.insync.replicas / replication.max.bytes reach their Config fields. NOT decided: the rule while the ISR changes concurrently; delivery of acks.",
 	})
 }
 
